@@ -16,6 +16,7 @@ ap.add_argument('--src', default='/tmp/seed/out')
 ap.add_argument('--checks', default=None)
 ap.add_argument('--tier', default='quick')
 ap.add_argument('--no-suite', action='store_true')
+ap.add_argument('--suite-related', action='store_true', help='run only the test files that mention a module the patch touches')
 ap.add_argument('--keep', action='store_true')
 a = ap.parse_args()
 src = os.path.join(a.src, a.pid, a.k)
@@ -39,7 +40,14 @@ try:
     res['demo_patched'] = rc; res['demo_out'] = out
     if not a.no_suite:
         t0 = time.time()
-        r = subprocess.run(['/venv/bin/python', '-m', 'pytest', '-q', '-p', 'no:cacheprovider', '-n', '6', '--timeout=900', 'xrspatial/tests'],
+        sel = ['xrspatial/tests']
+        if a.suite_related:
+            import glob, re as _re
+            mods = set(_re.findall(r'^\+\+\+ b/xrspatial/(\w+)\.py', open(os.path.join(src, 'patch.diff')).read(), _re.M))
+            sel = sorted(f[len(wt) + 1:] for f in glob.glob(wt + '/xrspatial/tests/test_*.py')
+                         if any(_re.search(r'\b%s\b' % m, open(f).read()) for m in mods))
+            res['suite_selection'] = sel
+        r = subprocess.run(['/venv/bin/python', '-m', 'pytest', '-q', '-p', 'no:cacheprovider', '-n', '3' if a.suite_related else '6', '--timeout=900'] + sel,
                            env=env, cwd=wt, capture_output=True, text=True)
         fails = sorted(l.split(' ')[1] for l in r.stdout.splitlines() if l.startswith('FAILED') or l.startswith('ERROR'))
         res['suite_failures'] = fails; res['suite_tail'] = r.stdout.strip().splitlines()[-1:]; res['suite_s'] = round(time.time() - t0)
